@@ -85,10 +85,27 @@ def check(ctx: Ctx) -> None:
     # R3: keys of the emitted block
     mp = proj.func('merchant_engine.MerchantEngine.parse')
     keys = {n.comparators[0].value for n in ast.walk(mp.node) if isinstance(n, ast.Compare) and src(n.left) == 'key' and isinstance(n.comparators[0], ast.Constant)}
+    # keys dispatched through a constant table (`if key in TABLE: …`) count as well
+    from ._tables import const_dict
+    for n in ast.walk(mp.node):
+        if isinstance(n, ast.Compare) and src(n.left) == 'key' and len(n.ops) == 1 and isinstance(n.ops[0], (ast.In, ast.NotIn)):
+            c0 = n.comparators[0]
+            if isinstance(c0, (ast.Tuple, ast.List, ast.Set)):
+                keys |= {e.value for e in c0.elts if isinstance(e, ast.Constant)}
+            elif isinstance(c0, ast.Name):
+                d_ = const_dict(mp.module, c0.id)
+                if d_ is not None:
+                    keys |= set(d_)
     sr = proj.func('commands.discover.suggest_merchants_rule')
     text = ''
     for js in [x for x in all_nodes(sr.node) if isinstance(x, ast.JoinedStr)]:
         text += ''.join(v if k == 'const' else '{}' for k, v in fparts(js)) + '\n'
+    # lines of the block written as plain literals (a list of lines joined with newlines, += of constants …)
+    in_fstring = {id(c) for js in all_nodes(sr.node) if isinstance(js, ast.JoinedStr) for c in ast.walk(js)}
+    doc = sr.node.body[0].value if sr.node.body and isinstance(sr.node.body[0], ast.Expr) and isinstance(sr.node.body[0].value, ast.Constant) else None
+    for c in all_nodes(sr.node):
+        if isinstance(c, ast.Constant) and isinstance(c.value, str) and id(c) not in in_fstring and c is not doc:
+            text += c.value + '\n'
     lines = [l.strip() for l in text.splitlines() if l.strip()]
     header = any(l.startswith('[{}]') for l in lines)
     ctx.check(header, 'C19.R3', sr, 'block:header', 'the block starts with a [name] header', 'the suggested block has no [name] header')
